@@ -58,6 +58,16 @@ checks.update({
    text="fault_enumeration: Flatten (all modes, +-RemoveUnused, +-ContinueOnError) runs in isolated workers on bundles of W, of W+ (arbitrary and nested anonymous pointers, back references, dangling remote/anonymous $refs, container recursion), on TLC-enumerated scenarios and on the fixtures; panics, fatal errors (stack overflow) and hangs (10 s, confirmed 20 s in a fresh process) are attributed to the call; for a subset every load position k in 1..L is failed in turn; analysis.New runs on every document; TLC checks each recorded call against the contract of the fault model.",
    note="Trusted: the worker pool's crash attribution; spec.PathLoader as the single loading point; generator's knowledge of which $refs it made unresolvable. Local '#/definitions/<missing>' references are outside the claim (interpretation, DESIGN.md). Full expansion of the azure fixtures is skipped (finite but astronomically large). Schema() termination is exercised through C20's check and through full flattening here.",
    ref="7/C09"),
+ "C17": dict(
+   technique="TLA+ state machine of Mixin over attributed trees (Mixin.tla: MixStep per absorbed mixin); TLC exhaustive over per-section families of histories (MC_Mixin, 0..2 mixins, 11 families) checking the declarative statements (FirstWins, ListUnion, ScalarFill, PrimaryKept, KeyCollisions) of the operational definition; enumerated and random histories replayed: the state after EVERY mixin recorded from the real code and compared by TLC (Trace_Mixin)",
+   text="model_checking: TLC proves on every enumerated history that the step-wise definition satisfies 'primary wins / first document wins / order-preserving de-duplicated lists / fill-if-empty scalars / one collision per key met again'; the real Mixin is run on every prefix of each replayed history (fresh copies) and TLC compares document and collision count after each mixin with the model, including all presence patterns of info/contact/license/externalDocs/extensions/paths.",
+   note="Trusted: projection (round-trip self-checked), TLC/Json; the operational model is the reference for fields the statement does not mention. Bounds: MC 2 mixins per family with 2-key universes; random histories up to 3 mixins with 3 keys per section.",
+   ref="7/C17"),
+ "C18": dict(
+   technique="same TLA+ state machine (Mixin.tla: ids set, MergeItemOps renaming) and the declarative IdsOK (pairwise distinct non-empty ids, renamed only if the original id is still borne by another operation, id-less stay id-less) as TLC invariant over families placing collisions under each of the seven HTTP methods; recorded id bags of the real result compared by TLC after every mixin",
+   text="model_checking: one MC_Mixin family per HTTP method puts id collisions primary<->mixin and mixin<->mixin and id-less operations under that method; InvIds holds on all reachable histories; the real code's operation ids after each absorbed mixin must equal the model's and satisfy IdsOK.",
+   note="As C17; histories respect the precondition of the property (ids unique within each document, no id of the form <id>Mixin<N> of another).",
+   ref="7/C18"),
 })
 
 def check_entry(pid, c):
